@@ -17,7 +17,7 @@ VERIF = os.path.dirname(os.path.dirname(os.path.abspath(__file__)))
 REPO = os.environ.get("VERIF_REPO", "/repo")
 SPEC = os.path.join(VERIF, "spec")
 HARNESS = os.path.join(VERIF, "harness")
-BUILD = os.path.join(VERIF, ".build")
+BUILD = os.environ.get("VERIF_BUILD", os.path.join(VERIF, ".build"))
 BIN = os.path.join(BUILD, "t38conf")
 NCPU = os.cpu_count() or 4
 
@@ -34,6 +34,17 @@ def goenv():
     env["GOTOOLCHAIN"] = "auto"
     env.setdefault("GOCACHE", os.path.join(os.path.expanduser("~"), ".cache", "go-build"))
     return env
+
+
+def build_server():
+    """Build the stock tile38-server binary from /repo's current tree (for checks that must survive a process crash)."""
+    os.makedirs(BUILD, exist_ok=True)
+    out = os.path.join(BUILD, "tile38-server")
+    p = subprocess.run(["go", "build", "-tags", "verif", "-o", out, "./cmd/tile38-server"],
+                       cwd=REPO, env=goenv(), stdout=subprocess.PIPE, stderr=subprocess.STDOUT, text=True)
+    if p.returncode != 0:
+        raise Infra("tile38-server build failed:\n" + p.stdout[-4000:])
+    return out
 
 
 def build_harness(log=None):
